@@ -225,6 +225,15 @@ def render_machine(prog, base_name=None):
                 line = line.replace(f".to({t['dst']},", f".to({base_name}.{t['dst']},", 1)
             body.append(line)
     lines.append("".join(body).rstrip("\n"))
+    for pr in prog.get("probes", []):
+        full = f"{prog['name']}/machine.{pr['name']}"
+        if pr["kind"] == "property":
+            lines.append(f"    @property\n    def {pr['name']}(self):\n        return SIM.probe({full!r}, self)")
+        elif pr["kind"] == "raising_property":
+            lines.append(f"    @property\n    def {pr['name']}(self):\n        SIM.probe({full!r}, self)\n"
+                         f"        raise RuntimeError('user property {pr['name']} evaluated')")
+        else:
+            lines.append(f"    def {pr['name']}(self, *a, **k):\n        return SIM.probe({full!r}, self)")
     for cbid in sorted(prog["cbs"]):
         if cbid.startswith("machine.") and not prog["cbs"][cbid].get("inherited"):
             lines.append(render_cb(prog, cbid).rstrip("\n"))
